@@ -89,7 +89,7 @@ Lemma root_query : forall fuel env s n o fr ms s1,
 Proof.
   intros fuel env s n o fr ms s1 HI0 Eq.
   destruct (proj1 (msound_all p rk (set_log s []) Hrk Hproj Hkeys fuel) env [] [] [] CUser None n _ o fr ms s1
-              HI0 (StkOk_nil rk n) (fun _ => eq_refl) I eq_refl (or_introl eq_refl) Eq)
+              HI0 (StkR_nil p n) (fun _ => eq_refl) I eq_refl (or_introl eq_refl) Eq)
     as (HI1 & _ & _ & i & Hi & Hv & Ho).
   split; [exact HI1|]. exists i. split; [exact Hi|]. split; [exact Hv|]. exact (Ho eq_refl).
 Qed.
